@@ -6,7 +6,7 @@ import json, os, re, subprocess, sys, time, shutil
 from pathlib import Path
 V = Path(__file__).resolve().parents[1]
 suite = '--suite' in sys.argv
-sys.argv = [a for a in sys.argv if a != '--suite']
+sys.argv = [a for a in sys.argv if a not in ('--suite', '--nosuite', '1')]
 sid = sys.argv[1]
 sd = V / 'seeded' / sid
 meta = json.loads((sd / 'meta.json').read_text())
